@@ -108,6 +108,26 @@ func c06Check(cc C06Case, rec *Recorder) *Disc {
 	if i := firstDiff(base[0], after); i >= 0 {
 		return discf("cfg %+v: after m.Reconfigure(m.Config()), {%s} is answered %s instead of %s", c, suite[i].Brief(), abbrev(after[i], 400), abbrev(base[0][i], 400))
 	}
+	// the n-th Config() call and the n-th Reconfigure(Config()) round trip say and do what the first ones did
+	if h := h64(fmt.Sprintf("%+v", c)); h%10 == 0 {
+		n := []int{17, 70, 130, 260, 300, 1030}[(h/10)%6]
+		first := cfgJSON(m1.Config())
+		for i := 0; i < n; i++ {
+			if i%3 == 2 {
+				if err := m1.Reconfigure(m1.Config()); err != nil {
+					return discf("cfg %+v: round trip no. %d, m.Reconfigure(m.Config()), fails: %v", c, i, err)
+				}
+			}
+			if got := cfgJSON(m1.Config()); got != first {
+				return discf("cfg %+v: Config() call no. %d returns %s, the first one returned %s", c, i+2, got, first)
+			}
+		}
+		rec.Class("many-config-calls-and-round-trips")
+		if after := SuiteSig(wrap1, suite); firstDiff(base[0], after) >= 0 {
+			i := firstDiff(base[0], after)
+			return discf("cfg %+v: after %d Config() calls and round trips, {%s} is answered %s instead of %s", c, n, suite[i].Brief(), abbrev(after[i], 400), abbrev(base[0][i], 400))
+		}
+	}
 	// stability: after one round trip Config() no longer changes
 	c3 := m1.Config()
 	if err := m1.Reconfigure(c3); err != nil {
